@@ -10,7 +10,7 @@ from claims import CLAIMS
 MARK = "\n---------------------------------------------------------------------------------------------\n\n## 11. As built: per property"
 
 NOTES = {
- "C01": "as planned; the text layer (`print_int`) is covered by C07's `fmtFixed` model (precision 0 prints the integer) rather than by a separate theorem.",
+ "C01": "as planned; the text layer (`print_int`) is `C06.count_prints_as_integer` / `create_stdout_reads_back` (`Props/C06E.lean`): counts below 2^53 are printed at precision 0 as their decimal digits and read back bit for bit.",
  "C02": "as planned. `projectIter_eq` lives with C03. Cohort cases now include targets at the f64-overflow edge of C(t, m) (seed C02-B).",
  "C03": "as planned incl. all *ext* theorems: `hyper_compose` / `project_project` and `project_marginalize_comm` (`Props/C03X.lean`: projecting all axes then summing some out = summing them out then projecting the rest). Rejected targets now include, for every axis, a target larger there and smaller elsewhere (seed C03-B).",
  "C04": "as planned; the create/marginalize relation is proved in the form `marginal_is_spectrum` / `marginal_counts` (`Props/C04X.lean`): the marginal of the spectrum of a site list is the spectrum of the sites with the removed populations ignored (with `C06.create_is_spectrum` this is the `create` statement for data complete on all selected samples).",
